@@ -1,8 +1,8 @@
 """C19 helper: abstract templates (JSON), printers for the three surface syntaxes, an
 independent model of what such a template renders, text pools and the value registry.
 
-Nothing here imports the engine except `build_namespace` (needs the template classes to
-create sub-templates) and the few value factories that need ExtensionClass/Acquisition.
+Nothing here imports the engine except `make_templates` (creates the template objects) and
+the few value factories that need ExtensionClass/Acquisition.
 
 Abstract template = list of nodes, every node a JSON list:
 
@@ -80,7 +80,6 @@ class Printer:
         self.k = 0
         self.seqs = {}      # name -> opts
         self.subs = {}      # name -> source
-        self.uses = set()
 
     def fresh(self, prefix):
         self.k += 1
@@ -158,10 +157,8 @@ class Printer:
             kind, body, other = n[1], n[2], n[3]
             B, O = self.nodes(body, name), self.nodes(other, name)
             if kind == 'then':
-                self.uses.add('yes')
                 return self.open('if', 'yes') + B + self.cont('else') + O + self.close('if')
             if kind == 'else':
-                self.uses.add('no')
                 return self.open('if', 'no') + O + self.cont('else') + B + self.close('if')
             if kind == 'elif':
                 return (self.open('if', 'no') + O + self.cont('elif', 'yes') + B +
@@ -386,9 +383,9 @@ def gen_random(rng, depth, budget=None):
     for _ in range(50):
         ast = _gen_block(rng, depth, top=True)
         c = count_ins(ast)
-        if 1 <= c <= 6:
+        if 1 <= c <= 6 and depth_of(ast) >= 1:
             return ast
-    return [['lit', 'A'], ['ins'], ['lit', 'B']]
+    return [['lit', 'A'], ['with', 'mapping', [['ins']]], ['lit', 'B']]
 
 
 def _gen_block(rng, depth, top=False):
@@ -450,23 +447,25 @@ class Obj:
     w = 'W'
 
 
-def build_namespace(value, seqs, subs, syntax, enc):
+def make_templates(src, subs, syntax, enc, filedir=None):
+    """Template objects for a printed template.  With `filedir` the main template is file-based
+    (HTMLFile / File reading a file written there); those classes take no encoding argument."""
     from DocumentTemplate.DT_HTML import HTML
-    from DocumentTemplate.DT_String import String
-    cls = String if syntax == 'epfs' else HTML
-    ns = {'x': value, 'yes': 1, 'no': 0, 'nsmap': {'w': 'W'}, 'obj': Obj(), 'boom': Boom()}
-    for name, opts in seqs.items():
-        n = opts['n']
-        ns[name] = [value] * n if opts.get('items') else list(range(1, n + 1))
-    return ns, cls
-
-
-def make_templates(src, subs, syntax, enc):
-    from DocumentTemplate.DT_HTML import HTML
+    from DocumentTemplate.DT_HTML import HTMLFile
+    from DocumentTemplate.DT_String import File
     from DocumentTemplate.DT_String import String
     cls = String if syntax == 'epfs' else HTML
     kw = {} if enc is None else {'encoding': enc}
-    main = cls(src, **kw)
+    if filedir is not None:
+        import hashlib
+        import os
+        fcls = File if syntax == 'epfs' else HTMLFile
+        path = os.path.join(filedir, hashlib.md5(src.encode('utf-8')).hexdigest() + '.dtml')
+        with open(path, 'w', encoding='ascii') as f:
+            f.write(src)
+        main = fcls(path)
+    else:
+        main = cls(src, **kw)
     subt = {name: cls(s, **kw) for name, s in subs.items()}
     return main, subt
 
